@@ -22,10 +22,7 @@ ASSUMPTIONS = [
     "layers below every LGS altitude (cone factor > 0)",
     "global scale of the structure function may differ by the rounding of the published constant 0.17253 (<= 1e-3)",
 ]
-REQUIRED = ["slopecovariance.py:CovarianceMatrix.make_covariance_matrix",
-            "slopecovariance.py:CovarianceMatrix._make_covariance_matrix",
-            "slopecovariance.py:CovarianceMatrix._make_covariance_matrix_mp",
-            "slopecovariance.py:wfs_covariance", "slopecovariance.py:mirror_covariance_matrix"]
+REQUIRED = ["slopecovariance.py:CovarianceMatrix.make_covariance_matrix", "slopecovariance.py:wfs_covariance"]
 REQUIRED_COUNTERS = ["contract_evals:C01", "relation_groups"]
 TIMEOUT = {"quick": 900, "thorough": 5400}
 
